@@ -24,7 +24,7 @@ import l2
 import enumgen as eg
 
 HERE = Path(__file__).resolve().parent
-PAR = 6
+PAR = 4
 GEN_GLOB = "*.shootenum*.go"
 FLAGS = ("bit", "json", "text", "sql", "gorm")
 
@@ -35,7 +35,8 @@ GORM_STUB = {
 }
 
 COMPONENTS = ["-", "built", "consts", "values", "strings", "vmap", "smap", "points", "mjson", "mtext", "sqlval",
-              "ujson", "utext", "scan", "rt", "parse", "try", "isenum", "gorm", "bitn", "bitstr", "bitops"]
+              "ujson", "utext", "scan", "rt", "parse", "try", "isenum", "gorm", "bitn", "bitstr", "bitops", "bitpairs",
+              "ctypes"]
 
 
 # --------------------------------------------------------------------- jobs
@@ -53,7 +54,15 @@ def job_of_spec(spec, inputs, compare=True, note=None):
                 consts.append(n)
         targets.append({"type": t.tname, "kind": t.kind, "flags": {f: bool(t.flags.get(f)) for f in FLAGS},
                         "consts": consts, "declared": [[n, v] for n, v in spec.declared(t.tname)]})
+    allc = []        # every named constant: (name, how to print its value)
+    for n, v, ct in env:
+        if ct is None:
+            allc.append([n, "I"])                      # untyped: int64(n)
+        else:
+            k = spec.kind_of(ct[1]) if ct[0] == "named" else ct[1]
+            allc.append([n, "I" if eg.KINFO[k][1] else "U"])
     return {"name": spec.name, "sources": eg.render_go(spec), "runs": [list(a) for a, _ in spec.runs],
+            "allconsts": allc,
             "targets": targets, "inputs": inputs, "coq_pkg": eg.coq_pkg(spec), "compare": compare,
             "features": sorted(spec.features), "note": note}
 
@@ -66,6 +75,9 @@ def oracle_go(job):
         cs = ", ".join('{Name: "%s", Val: zz.%s(%s(%s))}' % (n, "I" if signed else "U", "int64" if signed else "uint64", n)
                        for n in t["consts"])
         out.append('\tzz.Consts(out, "%s", []zz.C{%s})' % (t["type"], cs))
+        cts = ", ".join('{Name: "%s", Type: zz.TypeOf(%s), Val: zz.%s(%s(%s))}' % (n, n, how, "int64" if how == "I" else "uint64", n)
+                        for n, how in job.get("allconsts", []))
+        out.append('\tzz.Types(out, "%s", []zz.CT{%s})' % (t["type"], cts))
         out.append('\tzz.Run[%s](out, "%s", in["%s"])' % (t["type"], t["type"], t["type"]))
         if t["flags"]["bit"]:
             out.append('\tzz.Bits[%s](out, "%s", in["%s"])' % (t["type"], t["type"], t["type"]))
@@ -294,13 +306,21 @@ def sqlv(kind, payload):
         return "(SInt %s)" % cz(payload)
     if kind == "float":
         return "(SFloat %s)" % cz(payload)
+    if kind == "time":
+        return "(STime %s)" % cz(payload)
     return "(SBool %s)" % cb(payload)
 
 
 EMPTY_OBS = ("{| o_built := false; o_consts := []; o_values := []; o_strings := []; o_vmap := []; o_smap := []; "
              "o_points := []; o_mjson := []; o_mtext := []; o_sqlval := []; o_ujson := []; o_utext := []; o_scan := []; "
              "o_rt := []; o_parse := []; o_try := []; o_isenum := []; o_gorm := []; o_bitn := 0; o_bitstr := []; "
-             "o_bitops := [] |}")
+             "o_bitops := []; o_bitpairs := []; o_ctypes := [] |}")
+
+
+def local_type(tname, pkgname):
+    """'p0001.Level' -> 'Level' for a type of the package itself, '' otherwise (time.Duration, int, ...)"""
+    pre = pkgname + "."
+    return tname[len(pre):] if tname.startswith(pre) and "." not in tname[len(pre):] else ""
 
 
 def coq_obs(o):
@@ -317,7 +337,9 @@ def coq_obs(o):
     f.append("o_mjson := " + cl("(%s, %s)" % (cz(x), cs(s)) for x, s in o["mjson"]))
     f.append("o_mtext := " + cl("(%s, %s)" % (cz(x), cs(s)) for x, s in o["mtext"]))
     f.append("o_sqlval := " + cl("(%s, %s)" % (cz(x), cs(s)) for x, s in o["sqlval"]))
-    f.append("o_ujson := " + cl("(%s, %s, (%s, %s))" % (cs(d), cz(t0), cz(e), cz(t1)) for d, t0, e, t1 in o["ujson"]))
+    f.append("o_ujson := " + cl("(%s, %s, %s, (%s, %s))" % (cs(d), ("(Some %s)" % cs(ds)) if dok == "1" else "None",
+                                                         cz(t0), cz(e), cz(t1))
+                                for d, t0, e, t1, dok, ds in o["ujson"]))
     f.append("o_utext := " + cl("(%s, %s, (%s, %s))" % (cs(d), cz(t0), cz(e), cz(t1)) for d, t0, e, t1 in o["utext"]))
     f.append("o_scan := " + cl("(%s, %s, (%s, %s))" % (sqlv(k, p), cz(t0), cz(e), cz(t1)) for k, p, t0, e, t1 in o["scan"]))
     f.append("o_rt := " + cl("(%s, %s, %s, (%s, %s))" % (cz(c), cz(x), cz(t0), cz(e), cz(t1)) for c, x, t0, e, t1 in o["rt"]))
@@ -327,8 +349,13 @@ def coq_obs(o):
     f.append("o_gorm := " + cl(cs(s) for s in o.get("gorm", [])))
     f.append("o_bitn := %d" % int(o.get("bitn", 0)))
     f.append("o_bitstr := " + cl(cs(s) for s in o.get("bitstr", [])))
-    f.append("o_bitops := " + cl("(%s, (%s, (%s, %s)))" % (cz(fl), cz(mask), cl(cz(a) for a in adds), cl(cz(r) for r in rems))
-                                 for fl, mask, adds, rems in o.get("bitops", [])))
+    f.append("o_bitops := " + cl("(%s, (%s, (%s, (%s, (%s, %s)))))" % (cz(fl), cz(mask), cz(ma), cz(mr),
+                                                                       cl(cz(a) for a in adds), cl(cz(r) for r in rems))
+                                 for fl, mask, ma, mr, adds, rems in o.get("bitops", [])))
+    f.append("o_bitpairs := " + cl("(%s, %s, (%s, (%s, (%s, (%s, %s)))))" % (cz(x), cz(fl), cb(h), cz(a), cz(r), cb(ha), cb(hr))
+                                   for x, fl, h, a, r, ha, hr in o.get("bitpairs", [])))
+    f.append("o_ctypes := " + cl("(%s, (%s, %s))" % (cs(n), cs(local_type(t, o["pkg"])), cz(v))
+                                 for n, t, v in o.get("ctypes", [])))
     return "{| " + "; ".join(f) + " |}"
 
 
@@ -350,13 +377,23 @@ def coq_mismatches(run, fn, rendered, tag, shard=24, ctype="case"):
         defs = "".join("Definition c%d : %s := %s.\n" % (i, ctype, c) for i, c in enumerate(rendered[lo:lo + shard]))
         body = (HEADER + defs + "Definition cases : list %s := %s.\n" % (ctype, cl("c%d" % i for i in range(len(rendered[lo:lo + shard]))))
                 + "Definition M := Eval vm_compute in %s cases.\nPrint M.\n" % fn)
+        if ctype == "case":
+            body += "Definition G := Eval vm_compute in guard_count cases.\nPrint G.\n"
         out = run.coq_eval("%s_%d" % (tag, k), body)
-        return [(lo + i, v) for i, v in lib.parse_coq_list_pairs(out, "M")]
+        g = 0
+        if ctype == "case":
+            m = re.search(r"G = (\d+)%N", " ".join(out.split()))
+            if not m:
+                raise lib.CheckBroken("cannot parse guard_count: " + out[-500:])
+            g = int(m.group(1))
+        return [(lo + i, v) for i, v in lib.parse_coq_list_pairs(out, "M")], g
     res = []
     n = (len(rendered) + shard - 1) // shard
+    coq_mismatches.in_guard = 0
     with cf.ThreadPoolExecutor(max_workers=PAR) as ex:
-        for r in ex.map(one, range(n)):
+        for r, g in ex.map(one, range(n)):
             res.extend(r)
+            coq_mismatches.in_guard += g
     return res
 
 
@@ -424,7 +461,7 @@ def make_inputs(rng, spec, prop, thorough=False):
         cap = {"C04": 56, "C12": 14, "C14": 22}[prop] * (2 if thorough else 1)
         inp = {"points": [str(x) for x in eg.window_points(rng, kind, vals, cap=cap)],
                "mjson": [], "mtext": [], "sqlval": [], "ujson": [], "utext": [], "scan": [], "rt": [], "parse": [],
-               "try": [], "isenum": [], "gorm": bool(fl.get("gorm")), "bitn": 0, "bitflags": []}
+               "try": [], "isenum": [], "gorm": bool(fl.get("gorm")), "bitn": 0, "bitflags": [], "bitpairs": []}
         if prop == "C12":
             strings = eg.codec_strings(rng, spec, T, decl, cap=40 if thorough else 26)
             und = [x for x in eg.window_points(rng, kind, vals, cap=12) if x not in vals][:3]
@@ -437,6 +474,15 @@ def make_inputs(rng, spec, prop, thorough=False):
                 inp["mjson"] = mv
                 inp["ujson"] = [['"%s"' % s, t0(name2val.get(s))] for s in strings] + \
                                [[raw, t0()] for raw in eg.JSON_NONSTRING + ['""']]
+                # other JSON spellings of declared names (and of near misses): padding, \u escapes; what they
+                # mean is taken from encoding/json itself (the oracle records its decoding of every input)
+                for n, v in decl[:4]:
+                    t = eg.trim(n, T)
+                    if t:
+                        esc = "\\u%04x" % ord(t[0]) + t[1:]
+                        for raw in (' "%s" ' % t, '"%s"  ' % t, '"%s"' % esc, '"%s\\u0020"' % t, '" %s"' % t,
+                                    '"%s"x' % t, '"\\%s"' % t):
+                            inp["ujson"].append([raw, t0(v)])
             if fl.get("text"):
                 inp["mtext"] = mv
                 inp["utext"] = [[s, t0(name2val.get(s))] for s in strings]
@@ -448,7 +494,10 @@ def make_inputs(rng, spec, prop, thorough=False):
                 i64 = [v for v in vals if -(1 << 63) <= v < (1 << 63)]
                 sc += [["nil", "", t0()], ["int", str(i64[0] if i64 else 1), t0(i64[0] if i64 else None)],
                        ["int", "0", t0(0)], ["float", str(rng.randint(0, 9)), t0()], ["bool", "true", t0()],
-                       ["bool", "false", t0()], ["str", "", t0()], ["bytes", "", t0()]]
+                       ["bool", "false", t0()], ["str", "", t0()], ["bytes", "", t0()],
+                       ["time", str(rng.randint(0, 2000000000)), t0()]]
+                for n, v in decl[:2]:
+                    sc.append(["str", n, t0(v)])                   # the full constant name as a string: rejected
                 inp["scan"] = sc
             codecs = [c for c, f in (("0", "json"), ("1", "text"), ("2", "sql"), ("3", "json")) if fl.get(f)]
             inp["rt"] = [[c, str(v), t0(v)] for v in vals[:10] for c in codecs]
@@ -457,22 +506,34 @@ def make_inputs(rng, spec, prop, thorough=False):
             inp["isenum"] = [[k, str(v)] for k, v in eg.isenum_args(rng, kind, vals)]
         if fl.get("bit") and prop in ("C14", "C12"):
             top = max([v.bit_length() - 1 for v in vals if v > 0] + [0])
-            inp["bitn"] = min(1 << (top + 2), hi + 1, 1 << 12)
+            inp["bitn"] = min(1 << (top + 2), hi + 1)
             if prop == "C12":
                 inp["bitn"] = min(inp["bitn"], 32)
-            flags = []
+            # operands of Has/Add/Remove: first the operands that are NOT declared (0, undeclared single bits and
+            # unions, a bit above all flags), then the declared values (sampled if there are many)
+            extra = []
+            for e in [0, 1 << (top + 1), (1 << top) | 1, 3, 5, 6, (1 << (top + 2)) - 1] + \
+                     [1 << b for b in range(top + 1) if (1 << b) not in vals][:2]:
+                if 0 <= e <= hi and e not in vals and e not in extra:
+                    extra.append(e)
+            extra = extra[:6]
+            dvals = []
             for v in vals:
-                if 0 <= v <= hi and v not in flags:
-                    flags.append(v)
-            extra = [0, 1 << (top + 1), (1 << top) | 1, 3, 5, 6, (1 << (top + 2)) - 1]
-            for b in range(top + 1):
-                if (1 << b) not in vals:
-                    extra.append(1 << b)
-                    break
-            for e in extra:
-                if 0 <= e <= hi and e not in flags:
-                    flags.append(e)
-            inp["bitflags"] = [str(f) for f in flags[:14]]
+                if 0 <= v <= hi and v not in dvals:
+                    dvals.append(v)
+            room = 14 - len(extra)
+            if len(dvals) > room:
+                dvals = sorted(rng.sample(dvals, room))
+            inp["bitflags"] = [str(f) for f in extra + dvals]
+            # pairs over the whole kind: negative values and the sign bit for signed kinds, the top bit for
+            # unsigned ones, the extremes, random values
+            pool = [lo, lo + 1, hi, hi - 1, 0, 1, -1, -2, 1 << (eg.KINFO[kind][0] - 1), (1 << (eg.KINFO[kind][0] - 1)) - 1,
+                    -(1 << (eg.KINFO[kind][0] - 2)), rng.randint(lo, hi), rng.randint(lo, hi)] + vals[:4]
+            pool = [q for q in pool if lo <= q <= hi]
+            pairs = []
+            for _ in range(16 if thorough else 10):
+                pairs.append([str(rng.choice(pool)), str(rng.choice(pool))])
+            inp["bitpairs"] = pairs
         res[T] = inp
     return res
 
@@ -481,7 +542,7 @@ def count_evaluations(inputs):
     n = 0
     for inp in inputs.values():
         for k, v in inp.items():
-            if isinstance(v, list) and k != "bitflags":
+            if isinstance(v, list) and k != "bitflags":     # bitpairs count as one evaluation each
                 n += len(v)
         n += inp.get("bitn", 0) * (1 + 3 * len(inp.get("bitflags", [])))
         n += 4      # the four tables
@@ -530,14 +591,15 @@ def stale_variant(rng, spec, of_type=None):
                         sp = b.specs[i]
                         j = rng.choice([jj for jj, n in enumerate(sp.names) if n in names])
                         d = rng.choice([1, -1, 2, 3, -2, 10])
-                        sp.vals[j] = ("add", sp.vals[j], ("lit", d))
+                        # `e - 2`, not `e + (-2)`: next to a typed operand an untyped -2 must itself fit the type
+                        sp.vals[j] = ("add", sp.vals[j], ("lit", d)) if d > 0 else ("sub", sp.vals[j], ("lit", -d))
                         desc = "%s: expression of %s changed by %+d" % (of_type, sp.names[j], d)
                     elif kind == "value":
                         if not sp.vals:
                             continue
                         j = rng.randrange(len(sp.vals))
                         d = rng.choice([1, -1, 2, 3, -2, 10, 1 << rng.randint(2, 9)])
-                        sp.vals[j] = ("add", sp.vals[j], ("lit", d))
+                        sp.vals[j] = ("add", sp.vals[j], ("lit", d)) if d > 0 else ("sub", sp.vals[j], ("lit", -d))
                         desc = "expression %d of spec %s changed by %+d" % (j, ",".join(sp.names), d)
                     elif kind == "insert-blank":
                         if i == 0 or b.specs[i].vals or not b.paren:
@@ -658,6 +720,16 @@ def witness_cint(name="wcint"):
                      [("Color", {"json": True, "text": True, "sql": True})])
 
 
+def witness_wrap(name="wwrap"):
+    """K_is_enum_wrap (fixed): IsEnum with arguments outside the range of an int8 enum; in the grammar"""
+    T = ("ident", "Level")
+    return hand_spec(name, [("Level", "int8")],
+                     [[(["LevelLow"], T, [lit(3)]), (["LevelHigh"], T, [lit(7)]), (["LevelNeg"], T, [lit(-5)])]],
+                     [("Level", {"sql": True})])
+
+
+WITNESS_DUP_TRIMMED = {"a.go": "package wdtrim\n\ntype Level int\n\nconst (\n\tLevelHigh Level = 1\n\tHigh      Level = 2\n)\n"}
+WITNESS_RESERVED = {"a.go": "package wresv\n\ntype Axis int\n\nconst (\n\tx Axis = iota\n\ty\n\tz\n)\n"}
 WITNESS_DUP = {"a.go": "package wdup\n\ntype Color int\n\nconst (\n\tRed     Color = 1\n\tCrimson Color = 1\n\tBlue    Color = 2\n)\n"}
 WITNESS_FOREIGN = {"a.go": "package wforeign\n\nimport \"time\"\n\ntype Lvl int64\n\nconst (\n\tLvlA Lvl           = 1\n"
                            "\tTick time.Duration = 5\n\tTock\n)\n"}
@@ -676,3 +748,22 @@ class BuildOnly:
 
     def errors(self):
         return self.batch.extra_errs.get(self.name, [])
+
+
+GUARD_ERR = re.compile(r"\.shootenum\S*\.go:\d+:\d+: (invalid argument: index .*|.*overflows.*|undefined: \w+|"
+                       r"cannot use .* constant.*|duplicate key .* in map literal)")
+
+
+def declared_changed(spec, spec2):
+    """has the value of a constant that was declared at generation time changed (or is it gone)?"""
+    env2 = {n: v for n, v, _ in spec2.const_env()}
+    for t in spec.targets:
+        for n, v in spec.declared(t.tname):
+            if env2.get(n) != v:
+                return True
+    return False
+
+
+def stale_failure_is_guard(errors):
+    """a failed build of a stale variant must show an error of the guard (or of a table key) in a generated file"""
+    return any(GUARD_ERR.search(l) for l in errors)
